@@ -127,9 +127,9 @@ fn run_c17(args: &Args) -> i32 {
     let n = ctx.corpus.len() as u64;
     // (stream, cases, worlds per case, rcomp vehicles allowed)
     let plan: Vec<(u64, u64, usize, bool)> = if args.tier == "quick" {
-        vec![(0, scaled(n * 3, args.scale), 3, true), (1, scaled(400, args.scale), 3, true)]
+        vec![(0, scaled(n * 3, args.scale), 3, true), (1, scaled(400, args.scale), 3, true), (2, scaled(16 * c17::TOGGLES.len() as u64, args.scale), 1, true)]
     } else {
-        vec![(0, scaled(n * 40, args.scale), 6, true), (1, scaled(30_000, args.scale), 6, true)]
+        vec![(0, scaled(n * 40, args.scale), 6, true), (1, scaled(30_000, args.scale), 6, true), (2, scaled(16 * c17::TOGGLES.len() as u64, args.scale), 1, true), (3, scaled(16 * (c17::TOGGLES.len() * c17::TOGGLES.len()) as u64, args.scale), 1, true)]
     };
     let summaries = match pool::fan_out(args.workers, &|w, nw| {
         let env = make_env(args, w);
@@ -198,6 +198,8 @@ fn run_c17(args: &Args) -> i32 {
         "hash_orders_distinct": report::distinct(&st["canaries"]),
         "distinct_io_traces": report::distinct(&st["traces"]),
         "world_dimensions_exercised": st["world_dims"],
+        "cli_flags_swept_against_rcomp": st["flags_swept"],
+        "cli_flag_reach_grammars_whose_api_output_changes": st["flag_reach"],
         "runs_per_hour": if wall > 0.0 { (compiles as f64 / wall * 3600.0) as u64 } else { 0 },
         "simulated_time": "event sequence numbers (rustemo reads no clock); see io_events_simulated",
         "components": {
